@@ -18,7 +18,9 @@ Definition builtin_exc_bases : list (string * list string) :=
    ("UArity", ["Exception"]); ("UPrefix", ["Exception"]); ("UKeySub", ["KeyError"]); ("UMulti", ["ValueError"; "KeyError"]);
    ("UTypeSub", ["TypeError"]); ("UBase", ["BaseException"]);
    ("GPlain", ["GlomError"]); ("GAttr", ["GlomError"]); ("GArity", ["GlomError"]); ("GPrefix", ["GlomError"]); ("GKwOnly", ["GlomError"]);
-   ("GPathSub", ["PathAccessError"]); ("GMatchSub", ["MatchError"])].
+   ("GPathSub", ["PathAccessError"]); ("GMatchSub", ["MatchError"]);
+   (* three distinct classes sharing one __name__: the model identifies a class by its catalogue name, i.e. by the class object *)
+   ("UTwinA", ["Exception"]); ("UTwinB", ["Exception"]); ("UTwinK", ["KeyError"])].
 
 Definition exc_bases : list (string * list string) := glom_exc_bases ++ builtin_exc_bases.
 
